@@ -369,6 +369,9 @@ func evalHevcVps(c *Ctx, k caseT, out string) {
 	if outcome == "escaped-panic" {
 		c.Find(Finding{Kind: "oracle", Class: "hevc-panic-escapes", Case: k.line, Impl: outcome, Spec: "error or result"})
 	}
+	if outcome != "escaped-panic" {
+		sdpCaseOfVps(c, k, data, derive)
+	}
 	if k.kind == "hevcvpsenc" && k.wf {
 		c.Count("hevc-vps:class-" + k.class)
 		if outcome != "ok" {
